@@ -12,8 +12,17 @@ Lemma max_id_val : max_id = 18446744073709551615.
 Proof. reflexivity. Qed.
 Lemma next_id_small k : 0 <= k < max_id -> next_id k = k + 1.
 Proof. intros H. unfold next_id. rewrite max_id_val in H. rewrite two64_val. apply Z.mod_small. lia. Qed.
-(* the wrap that makes an inclusive upper bound dangerous: after 2^64-1 the scan would restart at 0 *)
+(* the wrap that makes an inclusive upper bound dangerous: after 2^64-1 the scan would restart at 0; the loop
+   therefore stops when nextID == 0 *)
 Lemma next_id_wraps : next_id max_id = 0.
+Proof. reflexivity. Qed.
+Lemma next_id_zero k : 0 <= k < two64 -> (next_id k = 0 <-> k = max_id).
+Proof.
+  intros H. split; [|intros ->; reflexivity]. intros E.
+  destruct (Z.eq_dec k max_id) as [->|Hne]; [reflexivity|].
+  rewrite next_id_small in E by (unfold max_id in *; lia). lia.
+Qed.
+Lemma range_end_val : range_end = max_id + 1.
 Proof. reflexivity. Qed.
 
 (* 20 zero-padded decimal digits hold every uint64: key order = id order *)
@@ -34,7 +43,7 @@ Section Loop.
   Hypothesis J_step : forall c it, J c (fst it) ->
     (forall d, In d (snd (cb c it)) -> d <= fst it) /\ J (fst (cb c it)) (fst it + 1).
 
-  Definition todo (m : amap V) (next : Z) : amap V := filter (in_range next max_id) m.
+  Definition todo (m : amap V) (next : Z) : amap V := filter (in_range next range_end) m.
   Notation step := (step_item cb).
 
   Definition fst3 {X Y W} (t : X * Y * W) : X := fst (fst t).
@@ -62,19 +71,19 @@ Section Loop.
   Lemma dels_sorted (dels : list Z) : forall (m : amap V) lo, sorted_from lo m -> sorted_from lo (fold_left del dels m).
   Proof. induction dels as [|d ds IH]; intros m lo H; cbn [fold_left]; [exact H|]. apply IH. apply del_sorted. exact H. Qed.
 
-  (* items of a page: keys strictly increasing, >= lo, < max_id *)
+  (* items of a page: keys strictly increasing, >= lo, < 2^64 *)
   Fixpoint page_ok (lo : Z) (p : amap V) : Prop :=
-    match p with [] => True | (k, _) :: r => lo <= k < max_id /\ page_ok (k + 1) r end.
+    match p with [] => True | (k, _) :: r => lo <= k < range_end /\ page_ok (k + 1) r end.
 
   Lemma page_ok_filter lo b (m : amap V) : sorted_from b m -> 0 <= lo -> page_ok lo (todo m lo).
   Proof.
     revert lo b; induction m as [|[k v] r IH]; intros lo b Hs Hlo; cbn [todo filter page_ok]; [exact I|].
     destruct Hs as [H1 H2]. unfold in_range at 1; cbn [fst].
-    destruct ((lo <=? k) && (k <? max_id)) eqn:E.
+    destruct ((lo <=? k) && (k <? range_end)) eqn:E.
     - cbn [page_ok]. split; [lia|].
-      assert (G : filter (in_range lo max_id) r = filter (in_range (k + 1) max_id) r).
-      { rewrite (filter_all_from lo max_id r (k + 1) H2) by lia.
-        rewrite (filter_all_from (k + 1) max_id r (k + 1) H2) by lia. reflexivity. }
+      assert (G : filter (in_range lo range_end) r = filter (in_range (k + 1) range_end) r).
+      { rewrite (filter_all_from lo range_end r (k + 1) H2) by lia.
+        rewrite (filter_all_from (k + 1) range_end r (k + 1) H2) by lia. reflexivity. }
       rewrite G. apply (IH (k + 1) (k + 1) H2). lia.
     - apply (IH lo (k + 1) H2 Hlo).
   Qed.
@@ -97,7 +106,7 @@ Section Loop.
     (p = [] -> r = (m, c, nx)) /\
     (forall b hi, (forall k v, In (k, v) p -> k < b) -> lo <= b ->
        filter (in_range b hi) (fst3 r) = filter (in_range b hi) m) /\
-    (forall k v r0, p = r0 ++ [(k, v)] -> thd3 r = k + 1 /\ J (snd3 r) (k + 1)).
+    (forall k v r0, p = r0 ++ [(k, v)] -> thd3 r = next_id k /\ J (snd3 r) (k + 1)).
   Proof.
     induction p as [|[k v] p IH]; intros lo0 lo m c nx Hp Hlo Hs HJ r.
     - subst r. cbn [fold_left fst3 snd3 thd3 fst snd].
@@ -118,7 +127,7 @@ Section Loop.
         * intros k' v' Hin. apply (Hb k' v'). right. exact Hin.
         * specialize (Hb k v (or_introl eq_refl)). lia.
       + intros k' v' r0 E. destruct r0 as [|x r0].
-        * cbn in E. inversion E; subst. cbn [fold_left thd3 snd3 fst snd]. rewrite next_id_small by lia. split; [reflexivity|exact HJ'].
+        * cbn in E. inversion E; subst. cbn [fold_left thd3 snd3 fst snd]. split; [reflexivity|exact HJ'].
         * cbn in E. inversion E; subst. apply (I5 k' v' r0 eq_refl).
   Qed.
 
@@ -182,7 +191,7 @@ Section Loop.
     sorted_from lo0 (snd (fst res)).
   Proof.
     induction fuel as [|fuel IH]; intros m next limit call c acc lo0 Hs Hn HJ Hl Hf; [lia|].
-    cbn [page_loop]. set (page := range m next max_id limit).
+    cbn [page_loop]. set (page := range m next range_end limit).
     assert (Hpage : page = firstn (Z.to_nat limit) (todo m next)) by reflexivity.
     destruct (fails call page) eqn:Ef.
     - (* LoadRange failed: halve and retry, or give up *)
@@ -199,14 +208,17 @@ Section Loop.
       destruct P as (P1 & P2 & P3 & P4).
       destruct (fold_left step page (m, c, next)) as [[m' c'] next'] eqn:Efold.
       cbn [fst3 snd3 thd3 fst snd] in P1, P3, P4.
+      assert (Hfinal_page : fst (fold_left step page (m, c, 0)) = (m', c')).
+      { rewrite (fold_step_nx page m c 0 next), Efold. reflexivity. }
       destruct (Z.of_nat (length page) <? limit) eqn:Elen.
       + (* short page: done *)
-        cbn [fst snd]. split; [discriminate|]. split; [|exact P1]. intros _.
+        cbn [orb fst snd]. split; [discriminate|]. split; [|exact P1]. intros _.
         assert (Hall : page = todo m next).
         { rewrite Hpage. apply firstn_short. rewrite <- Hpage. lia. }
         split; [rewrite Hall; reflexivity|].
-        unfold final. rewrite <- Hall. rewrite (fold_step_nx page m c 0 next), Efold. reflexivity.
-      + (* full page: continue right after its last key *)
+        unfold final. rewrite <- Hall. rewrite Hfinal_page. reflexivity.
+      + (* full page *)
+        cbn [orb].
         assert (Hlen : length page = Z.to_nat limit).
         { pose proof (firstn_le_length (Z.to_nat limit) (todo m next)) as G. rewrite <- Hpage in G. lia. }
         destruct (exists_last (l := page)) as (r0 & [k v] & Elast).
@@ -214,38 +226,57 @@ Section Loop.
         destruct (P4 k v r0 Elast) as [Hnext HJ'].
         assert (Hkeys : forall k' v', In (k', v') page -> k' < k + 1).
         { intros k' v' Hin. rewrite Elast in Hok, Hin. pose proof (page_ok_last r0 next k v Hok k' v' Hin). lia. }
-        assert (Hk0 : next <= k).
+        assert (Hkb : next <= k < range_end).
         { rewrite Elast in Hok. clear - Hok.
-          assert (G : forall (q : amap V) b, page_ok b q -> forall a w, In (a, w) q -> b <= a).
+          assert (G : forall (q : amap V) b, page_ok b q -> forall a w, In (a, w) q -> b <= a < range_end).
           { induction q as [|[a0 w0] q IHq]; intros b Hq a w Hin; [contradiction|].
             destruct Hq as [Hq1 Hq2]. destruct Hin as [E|Hin]; [inversion E; subst; lia|].
             specialize (IHq _ Hq2 _ _ Hin). lia. }
           apply (G _ _ Hok k v). apply in_or_app. right. left. reflexivity. }
-        assert (Htodo' : todo m' next' = skipn (length page) (todo m next)).
-        { unfold todo. rewrite Hnext. rewrite (P3 (k + 1) max_id Hkeys ltac:(lia)).
-          assert (Hnth : nth_error (todo m next) (length r0) = Some (k, v)).
+        (* what lies behind the page *)
+        assert (Hskip : skipn (length page) (todo m next) = filter (in_range (k + 1) range_end) m).
+        { assert (Hnth : nth_error (todo m next) (length r0) = Some (k, v)).
           { assert (G : nth_error page (length r0) = Some (k, v)).
             { rewrite Elast. rewrite nth_error_app2 by lia. rewrite Nat.sub_diag. reflexivity. }
             rewrite Hpage in G. rewrite nth_error_firstn_lt in G; [exact G|].
             rewrite <- Hlen, Elast, app_length. cbn. lia. }
           assert (Hlp : length page = S (length r0)).
           { rewrite Elast, app_length. cbn. lia. }
-          rewrite Hlp.
-          apply (filter_split_after next max_id m lo0 (length r0) Hs) with (v := v); [|exact Hnth].
+          rewrite Hlp. symmetry.
+          apply (filter_split_after next range_end m lo0 (length r0) Hs) with (v := v); [|exact Hnth].
           apply nth_error_Some. unfold todo in Hnth. rewrite Hnth. discriminate. }
-        assert (Hsplit : todo m next = page ++ todo m' next').
-        { rewrite Htodo', Hlen, Hpage. symmetry. apply firstn_skipn. }
-        assert (Hmeasure : (length (todo m' next') + Z.to_nat (Z.log2 limit) < fuel)%nat).
-        { rewrite Hsplit, app_length in Hf. lia. }
-        specialize (IH m' next' limit (S call) c' (acc ++ page) lo0 P1 ltac:(lia)
-                       ltac:(rewrite Hnext; exact HJ') Hl Hmeasure).
-        cbv zeta in IH. destruct IH as (I1 & I2 & I3).
-        split; [exact I1|]. split; [|exact I3]. intros Hd. destruct (I2 Hd) as [A B].
-        split.
-        * rewrite A, Hsplit, app_assoc. reflexivity.
-        * rewrite B. unfold final. rewrite Hsplit. rewrite fold_left_app.
-          destruct (fold_left step page (m, c, 0)) as [[m2 c2] nx2] eqn:E0.
-          pose proof (fold_step_nx page m c 0 next) as Q. rewrite E0, Efold in Q. cbn [fst] in Q.
-          inversion Q; subst m2 c2. apply fold_step_nx.
+        assert (Hsplit0 : todo m next = page ++ skipn (length page) (todo m next)).
+        { rewrite Hlen. rewrite Hpage. symmetry. apply firstn_skipn. }
+        destruct (next' =? 0) eqn:Ez.
+        * (* nextID wrapped: the page ended at the largest id, nothing can lie behind it *)
+          apply Z.eqb_eq in Ez. rewrite Hnext in Ez.
+          assert (Hk : k = max_id) by (apply next_id_zero; [unfold range_end in Hkb; lia|exact Ez]).
+          assert (Hnil : filter (in_range (k + 1) range_end) m = []).
+          { rewrite Hk, <- range_end_val. clear. induction m as [|[a w] r IHr]; cbn [filter]; [reflexivity|].
+            unfold in_range at 1; cbn [fst].
+            replace ((range_end <=? a) && (a <? range_end)) with false by (symmetry; lia). exact IHr. }
+          assert (Hall : page = todo m next) by (rewrite Hsplit0, Hskip, Hnil, app_nil_r; reflexivity).
+          cbn [fst snd]. split; [discriminate|]. split; [|exact P1]. intros _.
+          split; [rewrite Hall; reflexivity|].
+          unfold final. rewrite <- Hall. rewrite Hfinal_page. reflexivity.
+        * (* continue right after the last key of the page *)
+          apply Z.eqb_neq in Ez. rewrite Hnext in Ez.
+          assert (Hk : k <> max_id) by (intros ->; apply Ez; reflexivity).
+          assert (Hnext' : next' = k + 1).
+          { rewrite Hnext. apply next_id_small. unfold range_end, max_id in *. lia. }
+          assert (Htodo' : todo m' next' = skipn (length page) (todo m next)).
+          { unfold todo at 1. rewrite Hnext'. rewrite (P3 (k + 1) range_end Hkeys ltac:(lia)). symmetry. exact Hskip. }
+          assert (Hsplit : todo m next = page ++ todo m' next') by (rewrite Htodo'; exact Hsplit0).
+          assert (Hmeasure : (length (todo m' next') + Z.to_nat (Z.log2 limit) < fuel)%nat).
+          { rewrite Hsplit, app_length in Hf. lia. }
+          specialize (IH m' next' limit (S call) c' (acc ++ page) lo0 P1 ltac:(lia)
+                         ltac:(rewrite Hnext'; exact HJ') Hl Hmeasure).
+          cbv zeta in IH. destruct IH as (I1 & I2 & I3).
+          split; [exact I1|]. split; [|exact I3]. intros Hd. destruct (I2 Hd) as [A B].
+          split.
+          -- rewrite A, Hsplit, app_assoc. reflexivity.
+          -- rewrite B. unfold final. rewrite Hsplit. rewrite fold_left_app.
+             destruct (fold_left step page (m, c, 0)) as [[m2 c2] nx2] eqn:E0.
+             cbn [fst] in Hfinal_page. inversion Hfinal_page; subst m2 c2. apply fold_step_nx.
   Qed.
 End Loop.
